@@ -4,9 +4,10 @@ import ScrutModel.Model.Template
 
 * `compileScript`: layout of the script (exports of the first test, then per test: the expression
   verbatim, an empty line, `echo "<divider>"`, and `1>&2 echo "<divider>"` unless combined).
-* `parseDivider`, `iterate`: splitting a captured stream at the divider lines
-  `~~~~~~~~EXECDIVIDER::<salt>::<index>::<exit code>`; note that the parser finds the divider prefix
-  ANYWHERE in a line (`windows(..).position(..)`) and never compares the salt.
+* `parseDivider` (`parse_divider_bytes`), `parseSalted` (`parse_salted_divider_bytes`), `iterate`:
+  splitting a captured stream at the divider lines `~~~~~~~~EXECDIVIDER::<salt>::<index>::<exit code>`;
+  only `PREFIX ++ salt ++ "::"` of THIS execution starts a divider (found anywhere in a line: the
+  bytes before it are the unterminated last line of the output).
 * `executeAll`: the part of `BashScriptExecutor::execute_all` after the shell returned.
 * `removeDividers` (used on the timeout path).
 
@@ -111,6 +112,21 @@ def parseDivider (line : Bytes) : Option DivSearch :=
         | some i, some c => some (.found (if pre = [] then none else some pre) i c)
         | _, _ => none
 
+/-- `DIVIDER_PREFIX ++ salt ++ "::"`: what starts a divider of this execution -/
+def needle (salt : Bytes) : Bytes := PREFIX ++ salt ++ SEP
+
+/-- `parse_salted_divider_bytes`: look for the salted divider start; `parse_divider_bytes` on the
+slice from there; the bytes before it are the prefix -/
+def parseSalted (salt : Bytes) (line : Bytes) : Option DivSearch :=
+  let line := trimNewlines line
+  match splitFirst (needle salt) line with
+  | none => some .notFound
+  | some (pre, rest) =>
+    match parseDivider (needle salt ++ rest) with
+    | none => none
+    | some (.found _ index code) => some (.found (if pre = [] then none else some pre) index code)
+    | some .notFound => some .notFound
+
 inductive IterErr where
   | failed (index : Nat)   -- `ExecutionError::failed(index, _)`
   | aborted                -- `ExecutionError::aborted(..)`
@@ -121,12 +137,12 @@ inductive IterErr where
 `execute_all` (`index >= outputs.len()` ⇒ aborted; building that error evaluates
 `outputs[outputs.len() - 1]`, a panic when there are no outputs); `none` is the STDOUT callback,
 which never fails. -/
-def iterLines (limit : Option Nat) : List Bytes → List Bytes → Nat → Except IterErr (List (Bytes × Int))
+def iterLines (salt : Bytes) (limit : Option Nat) : List Bytes → List Bytes → Nat → Except IterErr (List (Bytes × Int))
   | [], _, _ => .ok []
   | l :: ls, buffer, expected =>
-    match parseDivider l with
+    match parseSalted salt l with
     | none => .error (.failed expected)
-    | some .notFound => iterLines limit ls (buffer ++ [l]) expected
+    | some .notFound => iterLines salt limit ls (buffer ++ [l]) expected
     | some (.found pre index code) =>
       if index ≠ expected then .error (.failed index)
       else
@@ -137,12 +153,12 @@ def iterLines (limit : Option Nat) : List Bytes → List Bytes → Nat → Excep
         match overflow with
         | some e => .error e
         | none =>
-          match iterLines limit ls [] (expected + 1) with
+          match iterLines salt limit ls [] (expected + 1) with
           | .ok r => .ok ((output, code) :: r)
           | .error e => .error e
 
-def iterate (limit : Option Nat) (stream : Bytes) : Except IterErr (List (Bytes × Int)) :=
-  iterLines limit (splitAtNewline stream) [] 0
+def iterate (salt : Bytes) (limit : Option Nat) (stream : Bytes) : Except IterErr (List (Bytes × Int)) :=
+  iterLines salt limit (splitAtNewline stream) [] 0
 
 /-! ## `execute_all` after the shell returned -/
 
@@ -175,11 +191,11 @@ def zipErr : List (Bytes × Int) → List (Bytes × Int) → List Out
   | (o, c) :: r, [] => ⟨o, [], c⟩ :: zipErr r []
   | (o, c) :: r, (e, _) :: es => ⟨o, e, c⟩ :: zipErr r es
 
-/-- `n` test cases, the script's own exit code, and the two captured streams (after
-`render_output`). -/
-def executeAll (n : Nat) (combined : Bool) (skip scriptExit : Int) (stdout stderr : Bytes) : ExecResult :=
+/-- the salt of this execution, `n` test cases, the script's own exit code, and the two captured
+streams (after `render_output`). -/
+def executeAll (salt : Bytes) (n : Nat) (combined : Bool) (skip scriptExit : Int) (stdout stderr : Bytes) : ExecResult :=
   if scriptExit = skip then .skipped 0 else
-  match iterate none stdout with
+  match iterate salt none stdout with
   | .error e => ofErr e
   | .ok outs =>
     match firstSkip skip outs 0 with
@@ -188,15 +204,14 @@ def executeAll (n : Nat) (combined : Bool) (skip scriptExit : Int) (stdout stder
       if outs.length ≠ n then .aborted
       else if combined then .ok (zipErr outs [])
       else
-        match iterate (some outs.length) stderr with
+        match iterate salt (some outs.length) stderr with
         | .error e => ofErr e
         | .ok errs => .ok (zipErr outs errs)
 
-/-- `remove_dividers_from_output` (timeout path): drops lines that START with the prefix and joins
-the remaining lines -- which still end in LF -- with another LF. -/
+/-- `remove_dividers_from_output` (timeout path): drops lines that START with the bare prefix (the
+salt is not compared here) and concatenates the remaining lines, which carry their line endings. -/
 def removeDividers (bs : Bytes) : Bytes :=
-  let kept := (splitAtNewline bs).filter (fun l => (stripPrefix? PREFIX l).isNone)
-  [LF].intercalate kept
+  ((splitAtNewline bs).filter (fun l => (stripPrefix? PREFIX l).isNone)).flatten
 
 /-! ## the script and the stream it produces -/
 
@@ -229,7 +244,8 @@ def joinStream (salt : Bytes) : Nat → List (Bytes × Nat) → Bytes
   | _, [] => []
   | i, (p, c) :: r => chunk salt i p c ++ joinStream salt (i + 1) r
 
-/-- guard of the round-trip theorem: the payload does not contain the divider prefix -/
-def noDivider (p : Bytes) : Bool := (splitFirst PREFIX p).isNone
+/-- guard of the round-trip theorem: the payload does not contain the divider start of this
+execution, `PREFIX ++ salt ++ "::"` (it may contain the bare prefix, or dividers with other salts) -/
+def noSalted (salt p : Bytes) : Bool := (splitFirst (needle salt) p).isNone
 
 end Scrut.Divider
